@@ -648,10 +648,14 @@ package decoder
 //@ func decodeKeyNotFound(b, cursor) (c, field, err)
 //@   props C15 C06
 //@   ghostparam end
-//@   requires region(b, end + 1) && 0 <= cursor && cursor < end && M(b + end) == 0
+// (entered behind the character or escape that ruled out the last candidate: possibly at the sentinel itself)
+//@   requires region(b, end + 1) && 0 <= cursor && cursor <= end && M(b + end) == 0
 //@   ensures err == nil ==> field == nil && cursor < c && c <= end
 //@   assigns nothing
-//@   loop 1: invariant old(cursor) <= cursor && cursor < end
+//@   loop 1: invariant old(cursor) <= cursor && cursor <= end
+//@   loop 1: decreases end - cursor + 1
+//@   loop 2: invariant 1 <= i && i <= 5 && cursor + i <= end + 1 && (i <= 4 ==> cursor + i <= end) && old(cursor) < cursor && M(b + cursor + i - 1) != 0
+//@   loop 2: decreases 5 - i
 
 //@ func decodeKeyByBitmapUint8(d, buf, cursor) (c, field, err)
 //@   props C15 C06
